@@ -219,4 +219,50 @@ theorem zero_based' (y : Int) (o : Nat) (ho : 1 ≤ o ∧ o ≤ yearLen y) :
   rw [if_neg (by omega), if_neg (by omega), if_neg (by omega)]
   exact ⟨rfl, rfl, rfl, v1, v3⟩
 
+/-! ### successor / predecessor on the user-visible weekday and order -/
+
+theorem wd_succ_toNat (w : Weekday) : (w.succ.toNat : Int) = ((w.toNat : Int) + 1) % 7 := by
+  cases w <;> decide
+
+theorem wd_pred_toNat (w : Weekday) : (w.pred.toNat : Int) = ((w.toNat : Int) + 6) % 7 := by
+  cases w <;> decide
+
+theorem succ_weekday' (y : Int) (o : Nat) (hy : MIN_YEAR ≤ y ∧ y ≤ MAX_YEAR) (ho : 1 ≤ o ∧ o ≤ yearLen y)
+    (d' : Date) (h : Date.succ_opt (dateOfYo y o) = .ok (some d')) :
+    d'.weekday = (dateOfYo y o).weekday.succ ∧ Date.cmp (dateOfYo y o) d' = -1 := by
+  obtain ⟨r, hr, _, hs⟩ := succ_ok' y o hy ho
+  rw [hr] at h
+  obtain ⟨y', o', hd, _, _, p1, p2, hdn, _⟩ := hs d' (Res.ok.inj h)
+  have hl := yearLen_ge y
+  have hl' := yearLen_ge y'
+  have w1 := weekday_spec y o (by omega)
+  have w2 := weekday_spec y' o' (by omega)
+  subst hd
+  refine ⟨?_, ?_⟩
+  · apply wd_toNat_inj
+    have := wd_succ_toNat (dateOfYo y o).weekday
+    rw [hdn] at w2
+    unfold weekdayOf at w1 w2
+    omega
+  · rw [cmp_spec y y' o o' ho ⟨p1, p2⟩, if_pos (by omega)]
+
+theorem pred_weekday' (y : Int) (o : Nat) (hy : MIN_YEAR ≤ y ∧ y ≤ MAX_YEAR) (ho : 1 ≤ o ∧ o ≤ yearLen y)
+    (d' : Date) (h : Date.pred_opt (dateOfYo y o) = .ok (some d')) :
+    d'.weekday = (dateOfYo y o).weekday.pred ∧ Date.cmp (dateOfYo y o) d' = 1 := by
+  obtain ⟨r, hr, _, hs⟩ := pred_ok' y o hy ho
+  rw [hr] at h
+  obtain ⟨y', o', hd, _, _, p1, p2, hdn⟩ := hs d' (Res.ok.inj h)
+  have hl := yearLen_ge y
+  have hl' := yearLen_ge y'
+  have w1 := weekday_spec y o (by omega)
+  have w2 := weekday_spec y' o' (by omega)
+  subst hd
+  refine ⟨?_, ?_⟩
+  · apply wd_toNat_inj
+    have := wd_pred_toNat (dateOfYo y o).weekday
+    rw [hdn] at w2
+    unfold weekdayOf at w1 w2
+    omega
+  · rw [cmp_spec y y' o o' ho ⟨p1, p2⟩, if_neg (by omega), if_pos (by omega)]
+
 end Chrono.Proofs.C01Gaps
